@@ -321,6 +321,48 @@ def check(ctx: Ctx) -> str:
         guarded = [sk for p, sk in items if p.outcome == "normal" and "if not isinstance(" in sk.text and ", Namespace):" in sk.text and "raise TemplateRuntimeError" in sk.text]
         ctx.check(bool(guarded), f"nsguard:form:{cname}", f"compiler:CodeGenerator.{entry}", "no path emits the Namespace check",
                   f"{entry} compiles a `{{% set %}}` form whose target may be `ns.attr` but never emits `if not isinstance(<ref>, Namespace): raise TemplateRuntimeError`: the store `ref['attr'] = value` then reaches any object of the render data that supports item assignment (a dict passed to render is modified, also in the immutable sandbox)", "src/jinja2/compiler.py")
+    # the target parse_set reads may be a tuple (`{% set a, d.x %}ab{% endset %}`,
+    # `{% set a, d.x = 1, 2 %}`): the guard must be emitted for every dotted reference inside
+    # the target, not only when the target itself is one
+    pat_calls = [c for c in astq.calls(ps.node) if astq.callee(c) == "self.parse_assign_target"]
+    tuple_ok = any(not any(k.arg == "with_tuple" and ast.unparse(k.value) == "False" for k in c.keywords) for c in pat_calls)
+    nsref_inline = any("Namespace" in sk.text for _, sk in res["visit_NSRef"])
+    for cname in built:
+        vf = repo.func(f"compiler:CodeGenerator.visit_{cname}")
+        emits = [c for c in astq.calls(vf.node) if astq.callee(c) == "self.writeline" and c.args and "Namespace" in ast.unparse(c.args[0]) and "isinstance" in ast.unparse(c.args[0])]
+        if not emits:
+            continue  # (reported by nsguard:form above)
+        tuple_cov = bare_cov = False
+        for e_ in emits:
+            lp = getattr(e_, "_parent", None)
+            while lp is not None and lp is not vf.node and not isinstance(lp, (ast.For, ast.AsyncFor)):
+                lp = getattr(lp, "_parent", None)
+            if isinstance(lp, ast.For):
+                cands = [lp.iter]
+                if isinstance(lp.iter, ast.Name):
+                    cands = [a.value for a in ast.walk(vf.node) if isinstance(a, ast.Assign) and any(isinstance(t_, ast.Name) and t_.id == lp.iter.id for t_ in a.targets)]
+                txts = [ast.unparse(c_) for c_ in cands]
+                tuple_cov = tuple_cov or any(".find_all(nodes.NSRef)" in x for x in txts)
+                # Node.find_all yields descendants only: the statement's find_all reaches a bare
+                # target, the target's own find_all does not
+                bare_cov = bare_cov or any(x.startswith("node.find_all(") or x in ("[node.target]", "(node.target,)") for x in txts)
+                if cname != "Assign":
+                    # same loop discipline as visit_Assign's (below): no early exit, skip only seen
+                    exits_ = [n_ for n_ in ast.walk(lp) if isinstance(n_, (ast.Break, ast.Return, ast.Raise))]
+                    okc_ = all(len([g for g, pol in astq.guard_atoms(lp, c_) if pol]) == 1 and [g for g, pol in astq.guard_atoms(lp, c_) if pol][0].endswith(".name in seen_refs") for c_ in ast.walk(lp) if isinstance(c_, ast.Continue))
+                    ctx.check(not exits_ and not lp.orelse and okc_, f"nsguard:all-targets:{cname}", f"compiler:CodeGenerator.visit_{cname}", "guard loop leaves early or skips unseen references",
+                              "the loop emitting the Namespace check must handle every dotted target (skipping only references already checked)", vf.loc(lp))
+            else:
+                bare_cov = bare_cov or ("isinstance(node.target, nodes.NSRef)", True) in astq.guard_atoms(vf.node, e_)
+        ctx.check(bare_cov and (tuple_cov or not tuple_ok), f"nsguard:tuple-targets:{cname}", f"compiler:CodeGenerator.visit_{cname}", "guard does not cover dotted references inside a tuple target",
+                  f"visit_{cname} emits the Namespace check {'only when the target itself is a dotted reference' if bare_cov else 'not for a bare dotted target'}; parse_set also accepts a tuple target, so `{{% set a, d.x %}}ab{{% endset %}}` / `{{% set a, d.x = 1, 2 %}}` compiles to `l_a, l_d['x'] = ...` without any check and writes into a dict of the render data (also in the immutable sandbox)", vf.loc(emits[0]))
+        # the guard runs before the assignment statement; inside a tuple target a plain name
+        # stored *before* the dotted reference rebinds what the reference means
+        # (`{% set ns, ns.x = d, 1 %}` checks the old ns, then stores into d): sound only when
+        # the check is part of the store itself (visit_NSRef) or such targets are rejected
+        rejects = any(astq.callee(c) == "self.fail" for c in astq.calls(vf.node))
+        ctx.check(nsref_inline or rejects or not tuple_ok, f"nsguard:rebinding:{cname}", f"compiler:CodeGenerator.visit_{cname}", "guard precedes a tuple target that may rebind the guarded name",
+                  f"visit_{cname} checks `isinstance(<ref>, Namespace)` before the assignment statement, but the tuple target is stored left to right: `{{% set ns = namespace() %}}{{% set ns, ns.x = d, 1 %}}` passes the check on the old `ns`, rebinds it to the dict `d` and then executes `d['x'] = 1` - render data is modified, also in the immutable sandbox", vf.loc(emits[0]))
     # the guard is emitted per distinct reference: the emitting loop runs over *all* NSRef
     # nodes and may only skip one already seen (continue) - an early exit leaves the
     # remaining targets unguarded, and `{% set ns.a, ns.b, d.x = ... %}` then stores into a
